@@ -453,6 +453,16 @@ func (v *Verifier) renderArg(st *State, in *ssa.Call, verb byte, e *Term) (*Term
 				fn := v.P.Prog.MethodValue(ms.At(i))
 				if fn != nil && inRepoFn(fn) && fn.Signature.Params().Len() == 0 && fn.Signature.Results().Len() == 1 {
 					if c := v.contractFor(fn); c != nil && !c.IsIface {
+						// fmt recovers from a panicking String method, so its precondition is not an
+						// obligation here: the contract is used only where the precondition is known to hold
+						env := &SpecEnv{v: v, st: st, pkg: c.Pkg.Types, vars: map[string]SVal{}}
+						names, tys := contractParams(c, fn, fn.Signature)
+						env.vars[names[0]] = SVal{val, tys[0]}
+						for _, r := range c.Requires {
+							if v.inc == nil || v.inc.Feasible(st.pc, Not(env.evalBool(r.Expr))) {
+								return Fresh("str", SString), true
+							}
+						}
 						if !v.applyContract(st, in, c, fn, fn.Signature, []*Term{val}) {
 							return nil, false
 						}
